@@ -124,7 +124,10 @@ pub fn run(ctx: &Ctx, out: &mut CaseOut) {
                     };
                     let db = FaultDb::new(&*l.program, solver_name(&choice));
                     db.budget.set(300_000);
-                    let mut s = choice.into_solver();
+                    let is_slg = solver_name(&choice) == "slg";
+                    let mut slg_s = chalk_engine::solve::SLGSolver::<I>::new(10, None);
+                    let mut other_s = choice.into_solver();
+                    let s: &mut dyn chalk_solve::Solver<I> = if is_slg { &mut slg_s } else { &mut *other_s };
                     let o = solve_limited(&mut *s, &db, &p.goal, &cb);
                     let sched_name = format!("{} {}", if from_on { "from-invocation" } else { "only-invocation" }, k);
                     let lim = match o {
@@ -170,13 +173,15 @@ pub fn run(ctx: &Ctx, out: &mut CaseOut) {
                         };
                         let db2 = FaultDb::new(&*l.program, solver_name(&choice));
                         db2.budget.set(300_000);
-                        match solve(&mut *s, &db2, &pj.goal) {
+                        let o2 = if is_slg { solve(&mut slg_s, &db2, &pj.goal) } else { solve(&mut *other_s, &db2, &pj.goal) };
+                        match o2 {
                             Outcome::Answer(a) => {
                                 out.evals += 1;
                                 if &a != fj {
                                     ok = false;
+                                    let stale = is_slg && crate::common::slg_stale_table(&mut slg_s);
                                     out.violation(
-                                        None,
+                                        if stale && a.is_none() && fj.is_some() { Some("slg:stale-delayed-answer-table") } else { None },
                                         format!("{}: after a solve interrupted by schedule ({}), solving `{}` on the same solver gives `{}` but a fresh solver gives `{}`", solver_name(&choice), sched_name, w.goals[gj].0, disp(&a), disp(fj)),
                                         d().set("later_goal", w.goals[gj].0.as_str()).set("later_answer", disp(&a)).set("fresh_answer", disp(fj)),
                                     );
